@@ -1,9 +1,16 @@
 #!/bin/bash
-# usage: try_seed.sh <seed-id e.g. C03-a> [tier] — applies the seeded patch to /repo, runs the property's check, reverts.
-id=$1; tier=${2:-quick}; prop=${id%%-*}
-cd /repo && git diff --quiet || { echo "/repo not clean"; exit 2; }
-git -C /repo apply /verif/seeded/$id/patch.diff || { echo "patch does not apply"; exit 2; }
-cd /verif; cp evidence/$prop.json /tmp/evidence-$prop.bak 2>/dev/null; ./check $prop $tier > /tmp/try-$id.out 2>&1; rc=$?; cp /tmp/evidence-$prop.bak evidence/$prop.json 2>/dev/null
-git -C /repo checkout -- .
-grep -E "^VIOLATION|^  sig=|^C[0-9]+ " /tmp/try-$id.out | cut -c1-300 | head -8
-echo "== $id tier=$tier check exit=$rc" | tee -a /verif/seeded/$id/detect.log; grep -m2 -E "^  sig=" /tmp/try-$id.out | cut -c1-200 >> /verif/seeded/$id/detect.log
+# usage: try_seed.sh <seed-id e.g. C03-a> [tier] [PROP] — applies the seeded patch to a scratch copy of /repo's sources
+# (outside /repo and /verif), runs the property's check against the copy (VERIF_REPO), removes the copy.
+# /repo itself is never touched, so this is safe while other checks or helpers build from /repo.
+id=$1; tier=${2:-quick}; prop=${3:-${id%%-*}}
+d=/tmp/try-repo-$id-$$
+rm -rf $d; mkdir -p $d
+rsync -a --exclude .git --exclude '*.o' --exclude '*.lo' --exclude '.libs' --exclude '*.la' --exclude '*.a' /repo/include /repo/lib $d/
+mkdir -p $d/tests; cp /repo/tests/upipe_h264_framer_test.h $d/tests/ 2>/dev/null
+( cd $d && patch -p1 -s < /verif/seeded/$id/patch.diff ) || { echo "patch does not apply"; rm -rf $d; exit 2; }
+out=/tmp/try-$id-$prop.out
+mkdir -p /tmp/try-evidence-$$
+( cd /verif && VERIF_REPO=$d VERIF_EPHEMERAL=1 VERIF_EVIDENCE_DIR=/tmp/try-evidence-$$ ./check $prop $tier > $out 2>&1 ); rc=$?
+rm -rf $d /tmp/try-evidence-$$
+grep -E "^VIOLATION|^  sig=|^C[0-9]+ " $out | cut -c1-300 | head -8
+echo "== $id tier=$tier check=$prop exit=$rc" | tee -a /verif/seeded/$id/detect.log; grep -m2 -E "^  sig=" $out | cut -c1-200 >> /verif/seeded/$id/detect.log
